@@ -126,9 +126,9 @@ def Addr.isLoopback (a : Addr) : Bool :=
   a.isUnix || a.isFd || a.host == sLocalhost || a.ip == IpClass.loopback
 def Addr.isWildcard (a : Addr) : Bool := a.host == [] || a.ip == IpClass.unspecified
 
-/-- `net.JoinHostPort` -/
+/-- `net.JoinHostPort` (Go 1.24: square brackets iff the host contains a colon) -/
 def joinHostPort (host port : Bytes) : Bytes :=
-  if host.contains colon || host.contains percent then 91 :: host ++ 93 :: colon :: port
+  if host.contains colon then 91 :: host ++ 93 :: colon :: port
   else host ++ colon :: port
 
 def Addr.joinHostPort (a : Addr) : Bytes :=
